@@ -26,6 +26,7 @@ func runC40(c *an.Ctx) {
 	if !controlGuard(c) {
 		return
 	}
+	headerIndexPairRule(c)
 	L := ls
 	sb := mustFunc(c, L+".(*LedgerStoreImp).saveBlockToBlockStore")
 	saveBlock := mustFunc(c, L+".(*BlockStore).SaveBlock")
